@@ -46,6 +46,8 @@ type store struct {
 	tipHeight               int64
 	longest, stale, orphan  []string // hashes by label (longest sorted by height, without genesis)
 	orphanRoot, orphanRoot2 string
+	orphanLinked            []string          // ORPHAN-labelled headers below which some parent was stored after its child
+	linkedA, linkedB        string            // two of them, from different chains
 	state                   map[string]string // hash -> LONGEST | STALE | ORPHAN | genesis
 	rootState               map[string]string // merkle root -> label of its header
 	rootHeight              map[string]int64
@@ -53,6 +55,7 @@ type store struct {
 	rootsStale, rootsOrphan []string
 	rootAtTip, rootGenesis  string
 	byHeight                map[int64]string // LONGEST hash at height
+	rows                    snap.Headers
 
 	userToken, hookURL, inactiveHookURL string
 	digest                              string // headers table digest after ingestion
@@ -112,7 +115,16 @@ func (s *store) ingest(rng *rand.Rand) error {
 	o2 := hdr(o1.HashOf(), gen.BitsNormal, 900022)
 	p1 := hdr(u2, gen.BitsNormal, 900031)
 	p2 := hdr(p1.HashOf(), gen.BitsNormal, 900032)
-	s.hist.Hdrs = append(s.hist.Hdrs, f1, f2, o1, o2, p1, p2)
+	// orphans whose parent arrives AFTER them (they stay labelled ORPHAN although their parent is now stored):
+	// one chain hanging off the stale fork, one off genesis
+	la0 := hdr(f1.HashOf(), gen.BitsLight, 900051)
+	la1 := hdr(la0.HashOf(), gen.BitsLight, 900052)
+	la2 := hdr(la1.HashOf(), gen.BitsLight, 900053)
+	lb0 := hdr(g, gen.BitsLight, 900061)
+	lb1 := hdr(lb0.HashOf(), gen.BitsLight, 900062)
+	lb2 := hdr(lb1.HashOf(), gen.BitsLight, 900063)
+	s.linkedA, s.linkedB = la2.HashOf().String(), lb2.HashOf().String()
+	s.hist.Hdrs = append(s.hist.Hdrs, f1, f2, o1, o2, p1, p2, la1, la2, la0, lb1, lb2, lb0)
 	stored := 0
 	for _, h := range s.hist.Hdrs {
 		res := s.st.Add(h)
@@ -147,6 +159,11 @@ func (s *store) ingest(rng *rand.Rand) error {
 	if err := s.readBack(); err != nil {
 		return err
 	}
+	if s.state[s.linkedA] != "ORPHAN-late" || s.state[s.linkedB] != "ORPHAN-late" {
+		// the store under test re-linked (or refused) the late-parent orphans: fall back to plain orphans
+		s.linkedA, s.linkedB = s.orphanRoot, s.orphanRoot2
+		r.Count("stores_without_linked_orphans", 1)
+	}
 	if len(s.longest) < 3 || len(s.stale) < 1 || len(s.orphan) < 2 || s.orphanRoot == "" || s.orphanRoot2 == "" ||
 		len(s.rootsLongest) < 1 || len(s.rootsStale) < 1 || len(s.rootsOrphan) < 1 {
 		return fmt.Errorf("store lacks material: longest=%d stale=%d orphan=%d", len(s.longest), len(s.stale), len(s.orphan))
@@ -159,8 +176,9 @@ func (s *store) readBack() error {
 	if err != nil {
 		return err
 	}
+	s.rows = t
 	s.state, s.rootState, s.rootHeight, s.byHeight = map[string]string{}, map[string]string{}, map[string]int64{}, map[int64]string{}
-	s.longest, s.stale, s.orphan, s.rootsLongest, s.rootsStale, s.rootsOrphan = nil, nil, nil, nil, nil, nil
+	s.longest, s.stale, s.orphan, s.rootsLongest, s.rootsStale, s.rootsOrphan, s.orphanLinked = nil, nil, nil, nil, nil, nil, nil
 	s.tipHeight, s.orphanRoot, s.orphanRoot2 = -1, "", ""
 	hashes := make([]string, 0, len(t))
 	for h := range t {
@@ -199,6 +217,23 @@ func (s *store) readBack() error {
 			s.stale = append(s.stale, h)
 		case "ORPHAN":
 			label = "ORPHAN"
+			// an orphan below which some parent was stored AFTER its child (heights do not step by one):
+			// the store keeps such chains labelled ORPHAN with heights counted from the late parent's child
+			for cur := row; ; {
+				p, ok := t[cur.Prev]
+				if !ok {
+					break
+				}
+				if cur.Height != p.Height+1 {
+					label = "ORPHAN-late"
+					break
+				}
+				cur = p
+			}
+			if label == "ORPHAN-late" {
+				s.orphanLinked = append(s.orphanLinked, h)
+				break
+			}
 			s.orphan = append(s.orphan, h)
 			if _, ok := t[row.Prev]; !ok {
 				if s.orphanRoot == "" {
@@ -219,7 +254,7 @@ func (s *store) readBack() error {
 				s.rootsLongest = append(s.rootsLongest, row.Merkle)
 			case "STALE":
 				s.rootsStale = append(s.rootsStale, row.Merkle)
-			case "ORPHAN":
+			case "ORPHAN", "ORPHAN-late":
 				s.rootsOrphan = append(s.rootsOrphan, row.Merkle)
 			}
 		}
@@ -278,6 +313,7 @@ func body(r *ev.Run) {
 			r.Count("stores", 1)
 			r.Count("stale_headers_in_stores", int64(len(s.stale)))
 			r.Count("orphan_headers_in_stores", int64(len(s.orphan)))
+			r.Count("linked_orphan_headers_in_stores", int64(len(s.orphanLinked)))
 			s.run(perStore)
 		})
 	}
